@@ -271,7 +271,10 @@ def sensitive_vars(n, top=True):
                 if after_sub: s_after |= all_vars(e)
                 bound |= certain(["group", [e]])
                 continue
-            if e[0] == "subselect": after_sub = True
+            if e[0] == "subselect":
+                after_sub = True
+                if e[1].get("distinct") or e[1].get("limit") is not None or e[1].get("offset") is not None:
+                    s_after |= all_vars(e)      # a pushed binding changes which rows DISTINCT / a slice keeps, whatever the group binds before
             if e[0] == "filter":
                 if t == "group": s_filter |= expr_vars(e[1])
             elif e[0] == "bind": s |= (expr_vars(e[1]) | {e[2]}) - bound
